@@ -329,7 +329,23 @@ def cases_for(env, sels, versions=(None,)):
 
 
 def all_cases(env, versions=(None,)):
-    yield from cases_for(env, base_selections() + lib.targeted_mixed_selections(), versions)
+    for c in cases_for(env, base_selections() + lib.targeted_mixed_selections(), versions):
+        if c["version"] is not None and c["stream"] in ("lay", "nl", "m3", "va"):
+            continue          # PlayReady versions do not interact with the stored layout / key set
+        yield c
+
+
+def layout_cases(env):
+    """every stored-layout variant (stream `lay`) x vod/live x single-/multi-period route x
+    (no drm | all | clearkey-cenc | playready-moov)"""
+    media = {m["name"]: m for m in env.media()}
+    for name in env.layout_tracks:
+        m = media[name]
+        for mode in ("vod", "live"):
+            for route in ("dash", "mps"):
+                for drm in ((None, "all") if not m["encrypted"] else ("all", "clearkey-cenc", "playready-moov")):
+                    yield {"kind": "init", "route": route, "stream": "lay", "name": name, "mode": mode,
+                           "drm": drm, "version": None}
 
 
 def mixed_cases(env, rng, n_random: int):
@@ -428,7 +444,7 @@ def history_probes(env) -> list[dict]:
     """init-segment requests re-issued after every step of a sequence"""
     out = []
     for name, stream in (("bbb_v6_enc", "bbb"), ("bbb_a1_enc", "bbb"), ("mk_v6_enc", "mk"), ("va_a1_enc", "va"),
-                         ("m3_a1_enc", "m3")):
+                         ("m3_a1_enc", "m3"), ("lay_trexmehd_enc", "lay")):
         for drm in ("playready", "clearkey", "all", "clearkey,playready", "playready-moov", "all-moov", "marlin"):
             for route, mode in (("dash", "vod"), ("dash", "live"), ("mps", "live")):
                 if route == "mps" and stream not in {d for _, d in env.mps_periods}:
@@ -634,7 +650,10 @@ def channels(ctx):
     env = c11_env.get_env()
     yield ch_history(ctx, env)          # first: its baseline is the fresh application
     ch = Channel("init_e2e", rule=(
-        "GET init segments of every fixture track (bbb clear+encrypted audio/video/text, tears, two-key mk) on the "
+        "GET init segments of every fixture track (bbb clear+encrypted audio/video/text, tears, two-/three-key mk, m3, "
+        "split-key va, nl) and of 20 stored-layout variants (stream lay: mehd after trex, several trex, no mehd, free "
+        "inside mvex, mvex before/after trak, udta/free in moov, a foreign pssh already stored in moov; clear and "
+        "encrypted) on the "
         "single-period and multi-period routes, live and vod, for every subset of DRM systems x every subset of "
         "locations, all, all-<locs>, none, no drm, and mixed-form selections (a suffixed item next to a bare name in "
         "both orders for every pair of systems and every location subset, differing per-item suffixes, repeated "
@@ -651,7 +670,7 @@ def channels(ctx):
         cases = base[:ctx.scale(600, 0)]
         for c in cases[::6]:
             c["version"] = rng.choice(versions)
-    cases = [dict(c) for c in REGRESSION] + cases + mixed_cases(env, rng, ctx.scale(120, 3000))
+    cases = [dict(c) for c in REGRESSION] + list(layout_cases(env)) + cases + mixed_cases(env, rng, ctx.scale(120, 3000))
     evaluate(env, cases, ch)
     yield ch
 
@@ -768,7 +787,7 @@ def search(ctx, disagreements):
     env = c11_env.get_env()
     seeds = [d["case"] for d in disagreements if isinstance(d.get("case"), dict) and d["case"].get("kind") == "init"]
     rng = ctx.rng("search")
-    pool = itertools.chain(seeds, REGRESSION, mixed_cases(env, rng, 500), all_cases(env, (None, "1.0", "4.0")))
+    pool = itertools.chain(seeds, REGRESSION, layout_cases(env), mixed_cases(env, rng, 500), all_cases(env, (None, "1.0", "4.0")))
     if not ctx.thorough:
         pool = itertools.islice(pool, 5000)        # keep the quick tier bounded when a proof obligation breaks
     for c in pool:
